@@ -30,8 +30,9 @@ def eqV : V → V → Bool
   | .int p v, y => match intView y with
     | some (q, w) => p == q && v == w
     | none => false
-  | .flt p a, y => match y with | .flt q b => p == q && a == b | _ => false
-  | .str p a, y => match y with | .str q b => p == q && a == b | _ => false
+  -- NOTE: unlike Int#==, Float#== and Str#== do not compare prototypes
+  | .flt _ a, y => match y with | .flt _ b => a == b | _ => false
+  | .str _ a, y => match y with | .str _ b => a == b | _ => false
   | .arr xs, y => match y with | .arr ys => eqList xs ys | _ => false
   | .obj ps, y => match y with | .obj qs => ps.length == qs.length && eqPairs ps qs | _ => false
 def eqList : List V → List V → Bool
@@ -54,27 +55,33 @@ end
 /-- `BaseObj#!=` -/
 def neV (x y : V) : Bool := !eqV x y
 
-/-- `<=>`: defined inside one family (ints with booleans, floats, strs); the result is a plain Int -/
-def cmpV : V → V → Option Int
-  | .flt _ a, .flt _ b => some (if a > b then 1 else if a == b then 0 else -1)
-  | .str _ a, .str _ b => some (if a > b then 1 else if a == b then 0 else -1)
-  | x, y =>
-    match intView x, intView y with
-    | some (_, a), some (_, b) => some (if a > b then 1 else if a == b then 0 else -1)
-    | _, _ => none
+/-- comparison keys: ints, booleans and floats compare as numbers, strs bytewise -/
+inductive Key | i (v : Int) | s (v : String)
+  deriving DecidableEq, Repr
+
+def cmp3 : Key → Key → Option Int
+  | .i a, .i b => some (if a > b then 1 else if a = b then 0 else -1)
+  | .s a, .s b => some (if b < a then 1 else if a = b then 0 else -1)
+  | _, _ => none
+
+/-- (family, prototype class, key) of a member of a comparable family: 0 = ints with booleans, 1 = floats, 2 = strs -/
+def famOf : V → Option (Nat × Nat × Key)
+  | .int p v => some (0, p, .i v)
+  | .bool b => some (0, 0, .i (if b then 1 else 0))
+  | .flt _ a => some (1, 0, .i a)
+  | .str _ a => some (2, 0, .s a)
+  | _ => none
+
+/-- `<=>`: defined inside one family; the result is a plain Int -/
+def cmpV (x y : V) : Option Int :=
+  match famOf x, famOf y with
+  | some (f, _, k), some (g, _, l) => if f = g then cmp3 k l else none
+  | _, _ => none
 
 /-- Comparable: `<`, `<=`, `>`, `>=` compare `self <=> other` with -1 / 1 -/
 def ltV (x y : V) : Option Bool := (cmpV x y).map (· == -1)
 def leV (x y : V) : Option Bool := (cmpV x y).map (· != 1)
 def gtV (x y : V) : Option Bool := (cmpV x y).map (· == 1)
 def geV (x y : V) : Option Bool := (cmpV x y).map (· != -1)
-
-/-- the prototype class of a member of a comparable family -/
-def protoOf : V → Option Nat
-  | .int p _ => some p
-  | .bool _ => some 0
-  | .flt p _ => some p
-  | .str p _ => some p
-  | _ => none
 
 end Pangaea.Compare
